@@ -1,4 +1,5 @@
 import SpoxModel.Lemmas.InlineHyg
+import SpoxModel.Lemmas.InlineTotal
 import SpoxModel.Generated.InlineFacts
 /-! Property theorems for C08 (only property-level statements and non-vacuity examples live here).
 
@@ -324,6 +325,144 @@ theorem inline_sem_scope {V : Type} (sem : OpSem V) (lit : Lit → V)
   | res _ _ hi e => rw [e] at hxe; exact hnr (hxe ▸ List.getElem_mem hi)
   | fresh _ _ _ hf _ => rw [hxe] at hf; exact hf hn
   | empty _ e => rw [e] at hxe; exact hu0 (hxe ▸ hn)
+
+/-- **`rename_total`**: in a name space in which nothing visible and no counter key starts with
+    `<node>__` (decidable: `Space.prefixFree`), the memoised renaming of *any* request list cannot
+    raise, and every non-empty inner name `n` becomes exactly `<node>__n` -/
+theorem rename_total (pfx : String) (reqs : List String) (s : Space)
+    (hf : s.prefixFree pfx = true) :
+    ∃ tbl s', assign pfx reqs s [] = .ok (tbl, s') ∧
+      ∀ n ∈ reqs, tblGet tbl n = if n = "" then "" else pfx ++ "__" ++ n := by
+  obtain ⟨tbl, s', h1, h2, _, h4⟩ := assign_total pfx s hf reqs s [] (TInv.init pfx s)
+  refine ⟨tbl, s', h1, fun n hn => ?_⟩
+  have := h2.img _ (tblGet_mem tbl n (h4 n hn))
+  simpa using this
+
+/-- `_Inline.to_onnx` cannot raise in a scope whose two name spaces are free of the node's prefix
+    family -/
+theorem toOnnx_total (c : Ctx) (g : Graph)
+    (hv : c.var.prefixFree c.nodeName = true) (hn : c.node.prefixFree c.nodeName = true) :
+    ∃ em, toOnnx c (normalise g) = .ok em := by
+  have hinit : (normalise g).inits = [] := by cases g; rfl
+  obtain ⟨tbl, s1, h1, _⟩ := rename_total c.nodeName
+    ((normalise g).valueReqs.filter fun n =>
+      !((normalise g).inputs.contains n) && !((normalise g).outputs.contains n)) c.var hv
+  obtain ⟨ntbl, s2, h2, _⟩ := rename_total c.nodeName (normalise g).nodeReqs c.node hn
+  refine ⟨⟨Node.renameL (rho (normalise g).inputs (normalise g).outputs c.argNames c.resNames tbl)
+      (tblGet ntbl) (normalise g).nodes ++
+      passThrough (normalise g).inputs c.argNames (normalise g).outputs c.resNames, s1, s2⟩, ?_⟩
+  unfold toOnnx
+  simp only [h1, h2, hinit, ne_eq, not_true_eq_false, if_false]
+
+/-- **`inline_sem_total`**: `inline_sem_scope` with its "does not raise" hypothesis discharged by
+    the decidable scope condition: for every scope free of the `<node>__` family, `to_onnx`
+    succeeds and the emitted nodes compute exactly `evalModel m vals` on the result names -/
+theorem inline_sem_total {V : Type} (sem : OpSem V) (lit : Lit → V)
+    (hc : ∀ l, sem (constOp l) [] [] = some [some (lit l)])
+    (hid : ∀ v : V, sem identityOp [some v] [] = some [some v])
+    (g : Graph) (c : Ctx) (vals : List V) (E : Env V) (outs : List (Option V))
+    (hv : c.var.prefixFree c.nodeName = true) (hn : c.node.prefixFree c.nodeName = true)
+    (hin : g.inputs.Nodup) (hin0 : "" ∉ g.inputs) (hout : g.outputs.Nodup) (hout0 : "" ∉ g.outputs)
+    (hA : ∀ x ∈ Node.assignedL g.nodes, x ∉ g.inputs)
+    (hal : c.argNames.length = g.inputs.length) (hrl : c.resNames.length = g.outputs.length)
+    (hrn : c.resNames.Nodup) (hu0 : "" ∉ c.var.used)
+    (hau : ∀ a ∈ c.argNames, a ∈ c.var.used)
+    (hru : ∀ r ∈ c.resNames, r ∈ c.var.used ∧ r ∉ c.argNames)
+    (hlen : g.inputs.length = vals.length)
+    (hE : ∀ i (h : i < c.argNames.length) (h' : i < vals.length), E.get c.argNames[i] = some vals[i])
+    (hEf : ∀ n, n ∉ c.var.used → E n = none) (hEr : ∀ r ∈ c.resNames, E r = none)
+    (hev : evalModel sem lit g vals = some outs) :
+    ∃ em E', toOnnx c (normalise g) = .ok em ∧ evalNodes sem lit em.nodes E = some E' ∧
+      c.resNames.map E'.get = outs ∧ ∀ n ∈ c.var.used, n ∉ c.resNames → E' n = E n := by
+  obtain ⟨em, hem⟩ := toOnnx_total c g hv hn
+  obtain ⟨E', h1, h2, h3⟩ := inline_sem_scope sem lit hc hid g c em vals E outs hem hin hin0 hout
+    hout0 hA hal hrl hrn hu0 hau hru hlen hE hEf hEr hev
+  exact ⟨em, E', hem, h1, h2, h3⟩
+
+/-- non-vacuity / sharpness: a counter in the family makes the name differ, a visible name in the
+    family makes `reserve` raise -/
+example : (Space.mk ["z"] []).prefixFree "Inline_0" = true ∧
+    (Space.mk ["z", "Inline_0__x"] []).prefixFree "Inline_0" = false ∧
+    (assign "Inline_0" ["x"] ⟨["z", "Inline_0__x"], []⟩ []).toOption.isNone = true := by decide
+
+/-! ### `adapt_inline` -/
+
+theorem normalise_idem (h : Graph) (hi : h.inits = []) : normalise h = h := by
+  obtain ⟨i, ini, n, o, v⟩ := h
+  simp only [Graph.inits] at hi
+  subst hi
+  simp [normalise, preamble, Graph.inputs, Graph.inits, Graph.nodes, Graph.outputs, Graph.valueInfo]
+
+theorem evalModel_normalise_eq {V : Type} (sem : OpSem V) (lit : Lit → V)
+    (hc : ∀ l, sem (constOp l) [] [] = some [some (lit l)]) (g : Graph) (vals : List V) :
+    evalModel sem lit (normalise g) vals = evalModel sem lit g vals := by
+  rw [evalModel_normalise sem lit hc (normalise g), evalModel_normalise sem lit hc g]
+  have : normalise (normalise g) = normalise g := normalise_idem _ (by cases g; rfl)
+  rw [this]
+  cases g; rfl
+
+/-- **`adapt_sem`**: when `adapt_inline` decides to convert, the nodes it returns are the renaming
+    (`to_onnx` in the fresh scope `Scope.of(node, *var_names)`) of the converted model; the converter
+    is a parameter assumed to keep the signature, to return a graph without initializers in SSA form
+    and to preserve `evalModel`. In a build whose value names are free of the node's prefix family
+    the adaptation cannot raise, and the returned nodes still compute exactly what `m` computes. -/
+theorem adapt_sem {V : Type} (sem : OpSem V) (lit : Lit → V)
+    (hc : ∀ l, sem (constOp l) [] [] = some [some (lit l)])
+    (hid : ∀ v : V, sem identityOp [some v] [] = some [some v])
+    (conv : Graph → Graph) (g : Graph) (c : Ctx) (varNames : List String) (first : List Node)
+    (imports : List Nat) (target : Nat) (vals : List V) (E : Env V) (outs : List (Option V))
+    (hneed : needsConversion (first.map fun n => n.op.domain) imports target = true)
+    -- the converter (third party), on the private normalised copy
+    (hci : (conv (normalise g)).inits = [])
+    (hcin : (conv (normalise g)).inputs = g.inputs) (hcout : (conv (normalise g)).outputs = g.outputs)
+    (hcA : ∀ x ∈ Node.assignedL (conv (normalise g)).nodes, x ∉ g.inputs)
+    (hcsem : evalModel sem lit (conv (normalise g)) vals = evalModel sem lit (normalise g) vals)
+    -- the fresh scope
+    (hv : (Space.mk varNames []).prefixFree c.nodeName = true)
+    (hnn : (Space.mk [c.nodeName] []).prefixFree c.nodeName = true)
+    (hin : g.inputs.Nodup) (hin0 : "" ∉ g.inputs) (hout : g.outputs.Nodup) (hout0 : "" ∉ g.outputs)
+    (hal : c.argNames.length = g.inputs.length) (hrl : c.resNames.length = g.outputs.length)
+    (hrn : c.resNames.Nodup) (hu0 : "" ∉ varNames)
+    (hau : ∀ a ∈ c.argNames, a ∈ varNames)
+    (hru : ∀ r ∈ c.resNames, r ∈ varNames ∧ r ∉ c.argNames)
+    (hlen : g.inputs.length = vals.length)
+    (hE : ∀ i (h : i < c.argNames.length) (h' : i < vals.length), E.get c.argNames[i] = some vals[i])
+    (hEf : ∀ n, n ∉ varNames → E n = none) (hEr : ∀ r ∈ c.resNames, E r = none)
+    (hev : evalModel sem lit g vals = some outs) :
+    ∃ em nodes E', toOnnx (freshCtx c varNames) (conv (normalise g)) = .ok em ∧ nodes = em.nodes ∧
+      adaptInline conv c varNames (normalise g) first imports target = .ok nodes ∧
+      evalNodes sem lit nodes E = some E' ∧ c.resNames.map E'.get = outs ∧
+      ∀ n ∈ varNames, n ∉ c.resNames → E' n = E n := by
+  have hnorm := normalise_idem (conv (normalise g)) hci
+  have hev' : evalModel sem lit (conv (normalise g)) vals = some outs := by
+    rw [hcsem, evalModel_normalise_eq sem lit hc, hev]
+  obtain ⟨em, E', h1, h2, h3, h4⟩ := inline_sem_total sem lit hc hid (conv (normalise g))
+    (freshCtx c varNames) vals E outs hv hnn (hcin ▸ hin) (hcin ▸ hin0) (hcout ▸ hout) (hcout ▸ hout0)
+    (hcin ▸ hcA) (by rw [hcin]; exact hal) (by rw [hcout]; exact hrl) hrn hu0 hau hru
+    (by rw [hcin]; exact hlen) hE hEf hEr hev'
+  rw [hnorm] at h1
+  refine ⟨em, em.nodes, E', h1, rfl, ?_, h2, h3, h4⟩
+  unfold adaptInline
+  rw [if_pos hneed, h1]
+
+/-- when the versions agree (or the emitted nodes do not touch the default domain) the nodes of the
+    build are returned unchanged -/
+theorem adapt_noop (conv : Graph → Graph) (c : Ctx) (varNames : List String) (g : Graph)
+    (first : List Node) (imports : List Nat) (target : Nat)
+    (h : needsConversion (first.map fun n => n.op.domain) imports target = false) :
+    adaptInline conv c varNames g first imports target = .ok first := by
+  unfold adaptInline; simp [h]
+
+/-- `node.model` after `adapt_inline` is the object it was before, whether `to_onnx` raises or not
+    (for the statement list extracted from `_adapt.adapt_inline` on this run; C12 relies on it) -/
+theorem adapt_restores_model {α : Type} (base target junk : α) (emitRaises : Bool) :
+    (SStmt.runL emitRaises target junk Generated.InlineFacts.swapIR ⟨base, none, false⟩).field = base := by
+  cases emitRaises <;> rfl
+
+/-- without the `finally` a raising `to_onnx` leaves the converted model in place -/
+theorem adapt_no_finally_counterexample :
+    (SStmt.runL true 1 2 [.saveBase, .setTarget, .emit, .restoreBase] ⟨(0 : Nat), none, false⟩).field = 1 := by
+  rfl
 
 /-- a small integer semantics for the examples -/
 def exSem : OpSem Int := fun op ins _ =>
